@@ -950,14 +950,18 @@ def cat(tensors, dim=0):
         for i in range(1, len(tensors[0].N)):
             r_sum.append(sum([Rs[k][i] for k in range(len(tensors))]))
         r_sum.append(1)
+        # the dtype of the result is the promoted dtype of the operands (as for torch.cat), not that of the first one
+        dtype = tensors[0].cores[0].dtype
+        for t in tensors[1:]:
+            dtype = tn.promote_types(dtype, t.cores[0].dtype)
         for i in range(len(tensors[0].N)):
             if i == dim:
                 n = sum([t.N[dim] for t in tensors])
                 cores.append(tn.zeros(
-                    (r_sum[i], n, r_sum[i+1]), device=tensors[0].cores[0].device, dtype=tensors[0].cores[0].dtype))
+                    (r_sum[i], n, r_sum[i+1]), device=tensors[0].cores[0].device, dtype=dtype))
             else:
                 cores.append(tn.zeros((r_sum[i], tensors[0].N[i], r_sum[i+1]),
-                             device=tensors[0].cores[0].device, dtype=tensors[0].cores[0].dtype))
+                             device=tensors[0].cores[0].device, dtype=dtype))
 
             offset1 = 0
             offset2 = 0
